@@ -1,6 +1,7 @@
 package c02
 
 import (
+	"strconv"
 	"fmt"
 	"strings"
 )
@@ -55,7 +56,45 @@ var entities = []entity{
 	{"&#42;", "*"}, {"&#95;", "_"}, {"&#96;", "`"}, {"&#91;", "["}, {"&#60;", "<"}, {"&#10;", "\n"}, {"&#9;", "\t"}, {"&#32;", " "},
 }
 
+// numEnt is a numeric character reference to a code point drawn from the whole range (decimal or hexadecimal,
+// either letter case, optional leading zeros): the low byte of the code point says nothing about the character.
+func (g *G) numEnt() Ent {
+	var r rune
+	switch g.s.Intn(4) {
+	case 0: // code points whose low byte is one of " & < > ' (0x22 0x26 0x3C 0x3E 0x27)
+		r = rune(1+g.s.Intn(0x10FF))<<8 | rune([]byte{0x22, 0x26, 0x3C, 0x3E, 0x27}[g.s.Intn(5)])
+	case 1:
+		r = rune(0x80 + g.s.Intn(0x800))
+	case 2:
+		r = rune(0x800 + g.s.Intn(0xF800))
+	default:
+		r = rune(0x10000 + g.s.Intn(0x100000))
+	}
+	exp := string(r)
+	if r >= 0xD800 && r <= 0xDFFF {
+		exp = "\uFFFD"
+	}
+	var src string
+	switch g.s.Intn(4) {
+	case 0:
+		src = "&#" + strconv.Itoa(int(r)) + ";"
+	case 1:
+		src = "&#" + strings.Repeat("0", g.s.Intn(3)) + strconv.Itoa(int(r)) + ";"
+	case 2:
+		src = "&#x" + strconv.FormatInt(int64(r), 16) + ";"
+	default:
+		src = "&#X" + strings.ToUpper(strconv.FormatInt(int64(r), 16)) + ";"
+	}
+	if len(src) > 10 { // at most 7 decimal / 6 hexadecimal digits
+		src = "&#x" + strconv.FormatInt(int64(r), 16) + ";"
+	}
+	return Ent{src, exp}
+}
+
 func (g *G) ent() Ent {
+	if g.s.Intn(4) == 0 {
+		return g.numEnt()
+	}
 	for {
 		e := entities[g.s.Intn(len(entities))]
 		if e.exp == "\n" || e.exp == "\t" || e.exp == " " { // keep whitespace-producing refs for URLs/titles only
